@@ -270,8 +270,8 @@ ZREAD = [cell('zread_small', 'harness.h_zread', 'zread_small', (540, 1500), boun
          cell('zread_big', 'harness.h_zread', 'zread_big', (540, 1500), bounds=B_ZREAD + '; 524288 < a <= 2100000',
               samples=[dict(S_ZREAD, a=600000, tape=[0, 40, 100])], replay_mode='model')]
 CFG = [cell('cfg_%s_p%d' % (ht, pl), 'harness.h_cfg', 'cfg_%s_p%d' % (ht, pl), (400, 1200),
-            bounds='hash_type=%s, loose_prefix_len=%d: add loose (bytes and stream), pack_all_loose, direct to pack, read back through every view; sizes in [0|1,70000]' % (ht, pl),
-            samples=[dict(s0=0, s1=66000, s2=5), dict(s0=7, s1=3, s2=66000)])
+            bounds='hash_type=%s, loose_prefix_len=%d: add loose (bytes and stream), pack_all_loose, direct to pack, read back through every view and in chunks; one object in [1,70000], the others 0..3 bytes' % (ht, pl),
+            samples=[dict(s0=0, s1=66000, s2=3), dict(s0=3, s1=7, s2=1)])
        for ht in ('sha1', 'sha256') for pl in (0, 1, 2, 3)]
 PACKID = [cell('packid_e%d_k%s' % (e, k), 'harness.h_cfg', 'packid_e%d_k%s' % (e, k), (400, 1200),
                bounds='_get_pack_id_to_write_to: %d existing packs of sizes in [0,1000], target in [1,1000], cached id enumerated over None, 0..3 (states with a cached id above the first non-full pack are skipped), known_sizes %s' % (e, 'absent' if k == 'n' else 'for the last pack'),
@@ -443,18 +443,18 @@ CHECKS = {
             cell('handles_clean', 'harness.h_handles', 'handles_clean', (400, 1200),
                  bounds='maintenance handle H has queried (q1); another handle deletes a packed object, stores it again loose and adds a new one; H runs clean_storage(vacuum symbolic) [and repack]; all handles and a new one answer every view; sizes in [1,70000]',
                  samples=[dict(sp=66000, s0=5, q1=0, vacuum=False, repack=False), dict(sp=5, s0=7, q1=3, vacuum=True, repack=True)]),
-            cell('handles3', 'harness.h_handles', 'handles3', (500, 1500),
-                 bounds='three handles: H queries (q1 in {has, get, meta, list, single get, none}), A adds, B may pack/clean, H queries '
-                 '(q2), A adds, B may pack (with/without per-pack cleaning)/clean, H itself adds, H queries (q3); sizes in [1,70000]',
-                 samples=[dict(sp=66000, s0=5, q1=3, q2=0, q3=3, pack1=True, clean1=True, pack2=True, clean2=True),
-                          dict(sp=5, s0=66000, q1=5, q2=4, q3=1, pack1=False, clean1=False, pack2=True, clean2=False)]),
-            cell('handles3_small', 'harness.h_handles', 'handles3_small', (500, 1500),
-                 bounds='as handles3 with pack_size_target = 10: every packed object in a pack of its own (several packs in the fallback look-up)',
-                 samples=[dict(sp=66000, s0=5, q1=3, q2=2, q3=2, pack1=True, clean1=True, pack2=True, clean2=True)]),
-            cell('handles3_creator', 'harness.h_handles', 'handles3_creator', (500, 1500),
-                 bounds='as handles3, the long-open handle being the one that created the container with init_container()',
-                 samples=[dict(sp=66000, s0=5, q1=3, q2=0, q3=3, pack1=True, clean1=True, pack2=True, clean2=True, small=False),
-                          dict(sp=5, s0=7, q1=0, q2=2, q3=1, pack1=True, clean1=True, pack2=False, clean2=False, small=True)]),
+        ] + [
+            cell('handles3%s_q%d' % (var, q), 'harness.h_handles', 'handles3%s_q%d' % (var, q), (500, 1500),
+                 bounds='three handles: H queries (q1 in {has, get, meta, list, single get, none}), A adds, B may pack/clean, H answers view %d '
+                 'of {has, bulk get, meta, list, single get}, A adds, B may pack (with/without per-pack cleaning)/clean, H itself adds, H answers '
+                 'view %d again; sizes in [1,70000]%s' % (q, q, {'': '', '_small': '; pack_size_target = 10: every packed object in a pack of its own',
+                 '_creator': '; H is the handle that created the container with init_container()',
+                 '_creator_small': '; H created the container, pack_size_target = 10'}[var]),
+                 samples=[dict(sp=66000, q1=3, maint1=True, maint2=True), dict(sp=5, q1=5, maint1=False, maint2=True)]
+                 if 'creator' in var else
+                 [dict(sp=66000, s0=5, q1=3, pack1=True, clean1=True, pack2=True, clean2=True),
+                  dict(sp=5, s0=66000, q1=5, pack1=False, clean1=False, pack2=True, clean2=False)])
+            for var in ('', '_small', '_creator', '_creator_small') for q in range(5)
         ],
         functions=F_READ + ['Container.add_streamed_object', 'Container.pack_all_loose', 'Container.clean_storage',
                             'Container._close_operation_session'],
